@@ -71,6 +71,10 @@ func (r *LagResetupper) CheckNeedResetup(cluster *mysql.Cluster) bool {
 	}
 
 	masterNode := cluster.Get(master)
+	if masterNode == nil {
+		r.logger.Error().Msgf("%s: master %q from dcs is not a registered host", prefix, master)
+		return false
+	}
 	masterRO, _, err := masterNode.IsReadOnly()
 	if err != nil {
 		r.logger.Error().Err(err).Msgf("%s: failed to check master (%s) if RO", prefix, master)
